@@ -201,29 +201,30 @@ func runCfg(cfg *config.Config) (out compiled) {
 
 // The external contract of istio-iptables, written down here as LITERAL strings (not taken from the
 // constants of the code under test): command-line flag, environment variable bound to it by flag.BindEnv,
-// additional environment variable (flag.AdditionalEnv).
-type contractEntry struct{ field, flag, env, alt string }
+// additional environment variable (flag.AdditionalEnv); `short` is the one-letter form production uses
+// (the injector passes -p -z -u -m -i -x -b -d ...).
+type contractEntry struct{ field, flag, short, env, alt string }
 
 var contract = []contractEntry{
-	{"ProxyPort", "envoy-port", "", ""},
-	{"InboundCapturePort", "inbound-capture-port", "INBOUND_CAPTURE_PORT", ""},
-	{"InboundTunnelPort", "inbound-tunnel-port", "INBOUND_TUNNEL_PORT", ""},
-	{"ProxyUID", "proxy-uid", "PROXY_UID", ""},
-	{"ProxyGID", "proxy-gid", "PROXY_GID", ""},
-	{"Mode", "istio-inbound-interception-mode", "ISTIO_INBOUND_INTERCEPTION_MODE", ""},
-	{"TProxyMark", "istio-inbound-tproxy-mark", "ISTIO_INBOUND_TPROXY_MARK", ""},
-	{"InboundInclude", "istio-inbound-ports", "ISTIO_INBOUND_PORTS", ""},
-	{"InboundExclude", "istio-local-exclude-ports", "ISTIO_LOCAL_EXCLUDE_PORTS", ""},
-	{"OutPortsInclude", "istio-outbound-ports", "ISTIO_OUTBOUND_PORTS", ""},
-	{"OutPortsExclude", "istio-local-outbound-ports-exclude", "ISTIO_LOCAL_OUTBOUND_PORTS_EXCLUDE", ""},
-	{"OutInclude", "istio-service-cidr", "ISTIO_SERVICE_CIDR", ""},
-	{"OutExclude", "istio-service-exclude-cidr", "ISTIO_SERVICE_EXCLUDE_CIDR", ""},
-	{"KubeVirt", "kube-virt-interfaces", "KUBE_VIRT_INTERFACES", ""},
-	{"ExclIfs", "istio-exclude-interfaces", "ISTIO_EXCLUDE_INTERFACES", ""},
-	{"RedirectDNS", "redirect-dns", "REDIRECT_DNS", "ISTIO_META_DNS_CAPTURE"},
-	{"DropInvalid", "drop-invalid", "DROP_INVALID", "INVALID_DROP"},
-	{"CaptureAllDNS", "capture-all-dns", "CAPTURE_ALL_DNS", ""},
-	{"DualStack", "dual-stack", "DUAL_STACK", "ISTIO_DUAL_STACK"},
+	{"ProxyPort", "envoy-port", "p", "", ""},
+	{"InboundCapturePort", "inbound-capture-port", "z", "INBOUND_CAPTURE_PORT", ""},
+	{"InboundTunnelPort", "inbound-tunnel-port", "e", "INBOUND_TUNNEL_PORT", ""},
+	{"ProxyUID", "proxy-uid", "u", "PROXY_UID", ""},
+	{"ProxyGID", "proxy-gid", "g", "PROXY_GID", ""},
+	{"Mode", "istio-inbound-interception-mode", "m", "ISTIO_INBOUND_INTERCEPTION_MODE", ""},
+	{"TProxyMark", "istio-inbound-tproxy-mark", "t", "ISTIO_INBOUND_TPROXY_MARK", ""},
+	{"InboundInclude", "istio-inbound-ports", "b", "ISTIO_INBOUND_PORTS", ""},
+	{"InboundExclude", "istio-local-exclude-ports", "d", "ISTIO_LOCAL_EXCLUDE_PORTS", ""},
+	{"OutPortsInclude", "istio-outbound-ports", "q", "ISTIO_OUTBOUND_PORTS", ""},
+	{"OutPortsExclude", "istio-local-outbound-ports-exclude", "o", "ISTIO_LOCAL_OUTBOUND_PORTS_EXCLUDE", ""},
+	{"OutInclude", "istio-service-cidr", "i", "ISTIO_SERVICE_CIDR", ""},
+	{"OutExclude", "istio-service-exclude-cidr", "x", "ISTIO_SERVICE_EXCLUDE_CIDR", ""},
+	{"KubeVirt", "kube-virt-interfaces", "k", "KUBE_VIRT_INTERFACES", ""},
+	{"ExclIfs", "istio-exclude-interfaces", "c", "ISTIO_EXCLUDE_INTERFACES", ""},
+	{"RedirectDNS", "redirect-dns", "", "REDIRECT_DNS", "ISTIO_META_DNS_CAPTURE"},
+	{"DropInvalid", "drop-invalid", "", "DROP_INVALID", "INVALID_DROP"},
+	{"CaptureAllDNS", "capture-all-dns", "", "CAPTURE_ALL_DNS", ""},
+	{"DualStack", "dual-stack", "", "DUAL_STACK", "ISTIO_DUAL_STACK"},
 }
 
 const (
@@ -246,7 +247,7 @@ type envCase struct {
 	vals      rawCfg            // values; OwnerGroups*/LoCidr are environment-only ("" = variable unset)
 	dual      bool              // --dual-stack
 	addrs     []string          // net.InterfaceAddrs(), in order
-	via       map[string]string // field -> "env" | "alt" (default: flag)
+	via       map[string]string // field -> "env" | "alt" | "short" (-x v) | "sp" (--flag v); default --flag=v
 	envoyUser string            // ENVOY_USER ("" = unset)
 	uid       string            // what an empty --proxy-uid must default to (observed: passwd entry or 1337)
 	resolv    []string          // nameservers of /etc/resolv.conf (observed)
@@ -421,6 +422,10 @@ func runRealEnv(e envCase) (out compiled, filled rawCfg) {
 			os.Setenv(c.env, v)
 		case "alt":
 			os.Setenv(c.alt, v)
+		case "short": // -x value
+			args = append(args, "-"+c.short, v)
+		case "sp": // --flag value
+			args = append(args, "--"+c.flag, v)
 		default:
 			args = append(args, "--"+c.flag+"="+v)
 		}
